@@ -3,6 +3,7 @@ import matplotlib.pyplot as plt
 from numpy import ndarray, float64
 from numpy import array, savez, savez_compressed, load, zeros
 from numpy import var, isfinite, exp, mean, argmax, percentile, cov
+from numpy import sqrt, maximum, diagonal, ndim
 from numpy.random import default_rng
 
 from inference.mcmc.utilities import Bounds, ChainProgressPrinter, effective_sample_size
@@ -211,10 +212,16 @@ class HamiltonianChain(MarkovChain):
     def finite_diff(self, t: ndarray) -> ndarray:
         p = self.posterior(t) * self.inv_temp
         G = zeros(self.n_parameters)
+        # the step is relative to the size of each coordinate, but never smaller
+        # than the same fraction of the typical displacement in one leapfrog
+        # update, so coordinates which are (close to) zero are handled correctly
+        inv_mass = self.mass.inv_mass
+        inv_mass = diagonal(inv_mass) if ndim(inv_mass) == 2 else inv_mass
+        dt = 1e-5 * maximum(abs(t), self.ES.epsilon * sqrt(inv_mass))
         for i in range(self.n_parameters):
-            delta = zeros(self.n_parameters) + 1
-            delta[i] += 1e-5
-            G[i] = (self.posterior(t * delta) * self.inv_temp - p) / (t[i] * 1e-5)
+            t_new = t.copy()
+            t_new[i] += dt[i]
+            G[i] = (self.posterior(t_new) * self.inv_temp - p) / (t_new[i] - t[i])
         return G
 
     def get_last(self) -> ndarray:
